@@ -196,4 +196,38 @@ def verdictLe : Option Bool → Option Bool → Bool
   | some a, some b => !a || b
   | _, _ => false
 
+/-! ### which structs carry a lifetime
+
+The generated table erases lifetimes, but a struct has a lifetime parameter exactly when a
+non-`'static` borrow occurs in it: a `&τ` / `&mut τ` field (other than `&'static str`, which the
+translator renders as `.ref .prim`), possibly inside containers or tuples, or a field whose type is
+another lifetime-carrying struct of the table. -/
+
+def mentionsLifetime : Nat → Env → Ty → Bool
+  | 0, _, _ => false
+  | fuel + 1, env, ty =>
+    let go := mentionsLifetime fuel env
+    match ty with
+    | .ref .prim => false
+    | .ref _ | .mutRef _ => true
+    | .slice t | .array t | .vec t | .option t | .box t | .range t | .phantom t
+    | .refCell t | .cell t | .arc t | .mutex t | .rc t | .rawPtr t => go t
+    | .tuple ts => ts.any go
+    | .adt id args =>
+      args.any go ||
+        (match env[id]? with
+         | some d => d.fields.any go
+         | none => false)
+    | _ => false
+
+/-- struct nesting through which a borrow is looked for (the search branches over all fields, so
+    this is kept small; the crate nests at most 3 deep: `MatrixQuadrants → MatrixView → MatrixPart`) -/
+def lifetimeFuel : Nat := 7
+
+/-- the table struct number `id` has a lifetime parameter -/
+def structCarriesLifetime (env : Env) (id : Nat) : Bool :=
+  match env[id]? with
+  | some d => d.fields.any (mentionsLifetime lifetimeFuel env)
+  | none => false
+
 end EasyMl.Auto
